@@ -69,13 +69,16 @@ def ensure_gosum():
         open(p, "w").write(content)
 
 
-def go_build(pkg, out, tags=None, race=False):
+def go_build(pkg, out, tags=None, race=False, cover=False):
     """build ./cmd/<pkg> of the harness against /repo's working tree; returns (ok, stderr)"""
     os.makedirs(BIN, exist_ok=True)
     ensure_gosum()
     tmp = out + ".tmp.%d" % os.getpid()
     cmd = ["go", "build", "-o", tmp]
     env = dict(GOENV)
+    if cover:
+        # the main package must be among the covered packages or no counter file is written at exit
+        cmd += ["-cover", "-coverpkg=./cmd/%s,%s" % (pkg, COVERPKG)]
     if tags:
         cmd += ["-tags", tags]
     if race:
@@ -155,6 +158,11 @@ def run_corr(domain, n, seed, tier, corr_bin=None, extra_env=None, stdin_ops=Non
     env = dict(os.environ)
     if extra_env:
         env.update(extra_env)
+    if COVERDIR:
+        # coverage mode: every run of a harness binary goes to the instrumented build and adds to one counter directory
+        if not corr_bin.endswith("-cover") and os.path.exists(corr_bin + "-cover"):
+            corr_bin += "-cover"
+        env.update(GOCOVERDIR=COVERDIR, VERIF_COVER="1")
     cmd = [corr_bin, domain, "-n", str(n), "-seed", str(seed), "-tier", tier]
     p = subprocess.run(cmd, cwd=BUILD, env=env, input=stdin_ops, stdout=subprocess.PIPE,
                        stderr=subprocess.PIPE, text=True, timeout=timeout)
@@ -204,6 +212,135 @@ def _run_driver_chunk(oplines, timeout):
     return res
 
 
+# ---------------------------------------------------------------- coverage of the anchored code (opt-in: VERIF_COVER=1 / --cover)
+
+COVER = os.environ.get("VERIF_COVER", "") not in ("", "0")
+COVERPKG = "free5gclib/...,tglib/...,stgutg/..."
+COVERDIR = None
+
+
+def cover_begin(prop_id):
+    """a fresh counter directory for this run; run_corr then sets GOCOVERDIR for every harness process (children inherit it)"""
+    global COVERDIR
+    COVERDIR = os.path.join(BUILD, "cover", "%s-%d" % (prop_id, os.getpid()))
+    shutil.rmtree(COVERDIR, ignore_errors=True)
+    os.makedirs(COVERDIR)
+    return COVERDIR
+
+
+def anchored_files(prop_id):
+    """anchors.files of the property (properties.jsonl), as the import-path file names of the coverage profile:
+    src/<module>/x.go -> <module>/x.go, a top-level x.go -> stgutgmain/x.go; globs stay globs; non-Go files are dropped"""
+    out = []
+    for line in open(os.path.join(VERIF, "properties.jsonl")):
+        r = json.loads(line)
+        if r.get("id") != prop_id:
+            continue
+        for f in (r.get("anchors") or {}).get("files", []):
+            if not f.endswith(".go"):
+                continue
+            out.append(f[4:] if f.startswith("src/") else "stgutgmain/" + f)
+    return out
+
+
+def _profile_blocks(path):
+    """textfmt profile -> {file: {(l0, c0, l1, c1): [nstmt, count]}} (the same block of several processes is merged)"""
+    files = {}
+    for line in open(path):
+        m = re.match(r"(.+):(\d+)\.(\d+),(\d+)\.(\d+) (\d+) (\d+)$", line.strip())
+        if not m:
+            continue
+        b = files.setdefault(m.group(1), {})
+        k = tuple(int(m.group(i)) for i in (2, 3, 4, 5))
+        e = b.setdefault(k, [int(m.group(6)), 0])
+        e[1] += int(m.group(7))
+    return files
+
+
+def _func_starts(profile):
+    """{file: [(line, name)]} from `go tool cover -func` (needs the harness module to resolve the import paths)"""
+    rc, so, se = run(["go", "tool", "cover", "-func=" + profile], cwd=HARNESS, env=GOENV, timeout=600)
+    starts = {}
+    for line in so.splitlines():
+        m = re.match(r"(.+\.go):(\d+):\s+(\S+)\s+[\d.]+%$", line.strip())
+        if m:
+            starts.setdefault(m.group(1), []).append((int(m.group(2)), m.group(3)))
+    for v in starts.values():
+        v.sort()
+    return starts, (se if rc != 0 else "")
+
+
+def cover_report(prop_id, max_blocks=40):
+    """per function of every anchored file: statement coverage reached by the correspondence runs of this check"""
+    import bisect, fnmatch
+    if not COVERDIR:
+        return None
+    profile = os.path.join(COVERDIR, "profile.txt")
+    rc, so, se = run(["go", "tool", "covdata", "textfmt", "-i=" + COVERDIR, "-o=" + profile], cwd=HARNESS, env=GOENV, timeout=600)
+    if rc != 0 or not os.path.exists(profile):
+        return dict(error="go tool covdata failed: " + (se or so)[-400:])
+    blocks = _profile_blocks(profile)
+    starts, err = _func_starts(profile)
+    pats = anchored_files(prop_id)
+    funcs, uncovered, absent = [], [], []
+    for pat in pats:
+        hit = sorted(f for f in blocks if fnmatch.fnmatchcase(f, pat))
+        if not hit:
+            absent.append(pat)      # no statement of this file is linked into any harness binary of the property (or it has none)
+        for f in hit:
+            st = starts.get(f, [])
+            lines = [x[0] for x in st]
+            per = {}
+            for (l0, c0, l1, c1), (ns, cnt) in sorted(blocks[f].items()):
+                i = bisect.bisect_right(lines, l0) - 1
+                name = st[i][1] if i >= 0 else "(package level)"
+                line = st[i][0] if i >= 0 else 0
+                p = per.setdefault((line, name), [0, 0])
+                p[0] += ns
+                if cnt:
+                    p[1] += ns
+                elif ns:
+                    uncovered.append(dict(file=f, func=name, range="%d.%d-%d.%d" % (l0, c0, l1, c1), statements=ns))
+            for (line, name), (tot, cov) in sorted(per.items()):
+                funcs.append(dict(file=f, func=name, line=line, statements=tot, covered=cov,
+                                  percent=round(100.0 * cov / tot, 1) if tot else 100.0))
+    tot = sum(x["statements"] for x in funcs)
+    cov = sum(x["covered"] for x in funcs)
+    rep = dict(anchored_functions=funcs, uncovered_blocks=uncovered[:max_blocks], uncovered_blocks_total=len(uncovered),
+               anchored_statements=tot, anchored_statements_covered=cov,
+               anchored_percent=round(100.0 * cov / tot, 1) if tot else None,
+               functions_never_entered=["%s:%s" % (x["file"], x["func"]) for x in funcs if x["statements"] and not x["covered"]],
+               files_not_in_profile=absent, profile=profile)
+    if err:
+        rep["error"] = "go tool cover -func: " + err[-300:]
+    return rep
+
+
+def cover_print(prop_id, rep):
+    if not rep:
+        return
+    if rep.get("error"):
+        log("[%s] coverage: %s" % (prop_id, rep["error"]))
+    if "anchored_functions" not in rep:
+        return
+    log("[%s] coverage of the anchored files: %s/%s statements (%s %%); profile %s"
+        % (prop_id, rep["anchored_statements_covered"], rep["anchored_statements"], rep["anchored_percent"], rep["profile"]))
+    by_file = {}
+    for x in rep["anchored_functions"]:
+        by_file.setdefault(x["file"], []).append(x)
+    for f, xs in by_file.items():
+        tot, cov = sum(x["statements"] for x in xs), sum(x["covered"] for x in xs)
+        part = [x for x in xs if x["covered"] < x["statements"]]
+        log("  %-58s %5d/%-5d %5.1f %%  functions below 100 %%: %d of %d"
+            % (f, cov, tot, 100.0 * cov / tot if tot else 100.0, len(part), len(xs)))
+        for x in part[:25]:
+            log("      %-50s %4d/%-4d %5.1f %%" % (x["func"], x["covered"], x["statements"], x["percent"]))
+        if len(part) > 25:
+            log("      ... %d more" % (len(part) - 25))
+    for p in rep["files_not_in_profile"]:
+        log("  %-58s not in the profile (no statements, or not linked into the harness)" % p)
+
+
 # ---------------------------------------------------------------- known findings
 
 def load_known():
@@ -235,3 +372,61 @@ def write_json(path, obj):
         json.dump(obj, f, indent=1, sort_keys=False)
         f.write("\n")
     os.replace(tmp, path)
+
+
+# ---------------------------------------------------------------- source scan
+
+FORBIDDEN = [r"\bsorry\b", r"\badmit\b", r"^\s*axiom\s", r"\bnative_decide\b", r"\bbv_decide\b", r"implemented_by",
+             r"\bunsafe\s", r"maxHeartbeats\s+0\b"]
+
+
+def import_closure(modules):
+    """files of the project that the given modules import, transitively (from the `import` lines)"""
+    seen, todo, files = set(), list(modules), []
+    while todo:
+        m = todo.pop()
+        if m in seen or not (m.startswith("Stgutg") or m.startswith("Driver")):
+            continue
+        seen.add(m)
+        path = os.path.join(LEAN, *m.split(".")) + ".lean"
+        if not os.path.exists(path):
+            continue
+        files.append(path)
+        for line in open(path, encoding="utf-8", errors="replace"):
+            mm = re.match(r"\s*import\s+([\w.]+)", line)
+            if mm:
+                todo.append(mm.group(1))
+    return files
+
+
+def scan_sources(modules):
+    """forbidden constructs in the Lean sources the property's modules depend on (comments stripped);
+    returns a list of 'file:line: text'"""
+    hits = []
+    pats = [re.compile(p) for p in FORBIDDEN]
+    for path in import_closure(modules):
+        if True:
+            depth = 0
+            for n, line in enumerate(open(path, encoding="utf-8", errors="replace"), 1):
+                text = ""
+                i = 0
+                while i < len(line):
+                    if line.startswith("/-", i):
+                        depth += 1
+                        i += 2
+                    elif line.startswith("-/", i) and depth > 0:
+                        depth -= 1
+                        i += 2
+                    elif depth == 0 and line.startswith("--", i):
+                        break
+                    else:
+                        if depth == 0:
+                            text += line[i]
+                        i += 1
+                # string literals may mention the words
+                text = re.sub(r'"[^"]*"', '""', text)
+                for p in pats:
+                    if p.search(text):
+                        hits.append("%s:%d: %s" % (os.path.relpath(path, LEAN), n, line.strip()[:120]))
+                        break
+    return hits
